@@ -118,6 +118,12 @@ class ECDSAPrivateKey(_ECKey):
         priv = priv_key.private_numbers()
         pub = priv.public_numbers
 
+        # The encoded public point is optional in some private key
+        # formats and may be in compressed form, so always derive the
+        # uncompressed point from the key itself
+        public_value = priv_key.public_key().public_bytes(
+            Encoding.X962, PublicFormat.UncompressedPoint)
+
         return cls(priv_key, curve_id, pub, public_value, priv)
 
     @classmethod
@@ -159,6 +165,10 @@ class ECDSAPublicKey(_ECKey):
         pub_key = ec.EllipticCurvePublicKey.from_encoded_point(curve(),
                                                                public_value)
         pub = pub_key.public_numbers()
+
+        # Normalize a compressed point to the uncompressed form SSH uses
+        public_value = pub_key.public_bytes(Encoding.X962,
+                                            PublicFormat.UncompressedPoint)
 
         return cls(pub_key, curve_id, pub, public_value)
 
